@@ -21,6 +21,9 @@ RULE = ("A sandbox S holds root/ (files, dirs, mbox, Maildir, HTML; with the ful
         "are identical in two worlds that differ only outside the root, (b) the audit monitor sees no open / "
         "listdir / exec outside realpath(root), (c) a selector that, decoded once as the protocol does, contains "
         "a climbing token and is not a URL: link is answered with the protocol's not-found reply. "
+        "Four enumerated start-up cases launch a real server process in a working directory with the root given "
+        "relative to it (foreground and detach = yes): its replies must equal those of a server given the same directory "
+        "absolutely and must not come from a decoy directory of the same relative name under '/'. "
         "Non-trivial: the decoded selector contains a climbing token or addresses a ZIP member / virtual item; "
         "distinct by case hash. Label 'reach:outside-object' counts cases whose unfiltered path names an existing "
         "outside object.")
@@ -331,6 +334,10 @@ def enumerate_cases(tier, seed):
     for su in (False, True):
         for cwd in ("cwd", "/"):
             yield {"mode": "startup-chroot-refused", "setuid": su, "cwd": cwd}
+    # a real server process started with a relative document root, in the foreground and detached
+    for detach in (True, False):
+        for prefix, st_ in (("", "ForkingTCPServer"), ("./", "ThreadingTCPServer")):
+            yield {"mode": "startup-relative-root", "detach": detach, "prefix": prefix, "servertype": st_}
     # plain requests for the directories whose content (gophermap lines, link-file blocks) points outside, in every form
     for d in ("/gm", "/lk", "/lk2", "/"):
         for form in FORMS:
@@ -387,9 +394,66 @@ def _check_startup(case, ctx):
         world.rmtree(S)
 
 
+def _check_detached(case, ctx):
+    """a real server process started in a working directory, with the document root given relative to it; with
+    detach = yes it goes to the background.  Whatever start-up does to the process, requests are answered from the
+    directory the configuration named when the server was started - never from a directory of the same relative name
+    elsewhere (a decoy holding other content sits where the name leads from '/')."""
+    from pgv import live
+    import configparser
+    S = world.fresh_dir("S")
+    srv = ref = None
+    try:
+        start = os.path.join(S, "start")
+        rel = S.lstrip("/") + "/root"
+        real = os.path.join(start, rel)
+        os.makedirs(real)
+        world.materialise([["hello.txt", "f", "inside\n"], ["d/a.txt", "f", "a\n"]], real)
+        decoy = os.path.join(S, "root")  # = '/' + rel
+        os.mkdir(decoy)
+        world.materialise([["hello.txt", "f", "DECOY\n"], ["secret.txt", "f", "SECRET-A\n"], ["d/a.txt", "f", "DECOY\n"]], decoy)
+        conf = live.write_conf(os.path.join(S, "s.conf"), case["prefix"] + rel, "shipped", case["servertype"], cachetime=0)
+        cp = configparser.ConfigParser()
+        cp.read(conf)
+        cp.set("pygopherd", "detach", "yes" if case["detach"] else "no")
+        with open(conf, "w") as f:
+            cp.write(f)
+        srv = live.Server(conf, cwd=start)
+        ref = live.Server(live.write_conf(os.path.join(S, "r.conf"), real, "shipped", case["servertype"], cachetime=0))
+        ctx.nontriv((case["detach"], case["prefix"], case["servertype"]))
+        ctx.label("startup:relative-root:%s" % ("detached" if case["detach"] else "foreground"))
+        ctx.sample(case, cls="detached")
+        fails = []
+        for sel in (b"/hello.txt", b"/secret.txt", b"/", b"/d", b"/d/a.txt"):
+            for form in ("gopher", "https", "gemini", "gplus"):
+                tls = clients.FORMS[form][0]
+                rq = clients.encode(form, sel)
+                got = live.request(srv.port, rq, tls)
+                want = live.request(ref.port, rq, tls)
+                if b"SECRET-A" in got or b"DECOY" in got:
+                    fails.append(Fail("startup:relative-root-resolved-elsewhere",
+                                      "started in %r with root = %r (detach = %s): the %s request for %r is answered from %r, "
+                                      "outside the configured root: %r" % (start, case["prefix"] + rel, case["detach"], form, sel, decoy, got[:80])))
+                elif got != want:
+                    fails.append(Fail("startup:relative-root-reply-differs",
+                                      "started in %r with root = %r (detach = %s): the %s reply for %r differs from the reply of a "
+                                      "server whose root is the same directory given absolutely: %r vs %r" % (
+                                          start, case["prefix"] + rel, case["detach"], form, sel, got[:80], want[:80])))
+                if fails:
+                    return fails
+        return fails
+    finally:
+        for s_ in (srv, ref):
+            if s_ is not None:
+                s_.stop()
+        world.rmtree(S)
+
+
 def check_case(case, ctx):
     if case.get("mode") == "startup-chroot-refused":
         return _check_startup(case, ctx)
+    if case.get("mode") == "startup-relative-root":
+        return _check_detached(case, ctx)
     _warmup()
     full = case["full"]
     S = world.fresh_dir("S")
